@@ -632,8 +632,15 @@ def elem_op(op, x, y):
     raise Unsupported(f"array operator {op}")
 
 
+def _snap(a):
+    """A lazily represented array captured by a derived (lazy) array must be the array AS IT IS NOW: numpy computes
+    eagerly, so a later in-place update of the operand must not show through the result."""
+    return a.copy() if isinstance(a, Arr) and a.elems is None else a
+
+
 def arr_binop(op, a, b):
     """Element-wise numpy semantics; a or b may be a scalar."""
+    a, b = _snap(a), _snap(b)
     if isinstance(a, Arr) and isinstance(b, Arr):
         if not same_length(a, b):
             if a.concrete_len() and a.length == 1:
@@ -666,6 +673,7 @@ def arr_map(f, a, dtype=None):
     dt = dtype or a.dtype
     if a.elems is not None:
         return Arr(a.length, elems=[f(x) for x in a.elems], dtype=dt, is_nd=True)
+    a = _snap(a)
     return Arr(a.length, fn=lambda i: f(a.get(i)), dtype=dt, is_nd=True)
 
 
